@@ -47,3 +47,13 @@ def ckk_replay(ck, maxn, maxv, maxk):
     ck.classify(fails, lambda fl: {"alg": "ckk", "key": fl["trace"]["key"], "model": fl["trace"]["m"], "code": fl["trace"]["c"]})
     ck.cat("ckk_model_replays", len(recs))
     return recs
+
+
+def heur_mc(ck, algs, invariants, maxn=4, maxv=6, maxk=3, cs=(5, 6), minv=0):
+    """the simple heuristics as stepwise state machines (Heuristics.tla): invariants hold at every step, for every input in scope"""
+    acts = {"greedy": "PlaceGreedy", "roundrobin": "Deal", "ff": "PlaceOrOpen", "bf": "PlaceOrOpen", "ffd": "PlaceOrOpen", "bfd": "PlaceOrOpen",
+            "dec": "FillDec", "tt": "FillTT", "tq": "FillTQ"}
+    cfg = ("CONSTANTS MaxN = %d MinV = %d MaxV = %d MaxK = %d Cs = {%s} Algs = {%s}\nINIT Init\nNEXT Next\n%s" %
+           (maxn, minv, maxv, maxk, ", ".join(map(str, cs)), ", ".join('"%s"' % a for a in algs), "".join("INVARIANT %s\n" % i for i in invariants)))
+    return ck.mc("Heuristics", cfg, "MC stepwise heuristic machines %s, n<=%d v<=%d: %s at every step" % ("/".join(algs), maxn, maxv, ", ".join(invariants)),
+                 coverage=True, required_actions=tuple(sorted({acts[a] for a in algs})) + ("Done",))
